@@ -189,6 +189,39 @@ def worker_params_alias(ctx: Ctx, rule: str) -> None:
                "every test parsed for that net carries as nets_* and what pull_locations hands out as access parameters", not bad, {"slot_keys": keys}, "" if not bad else bad[0])
 
 
+def worker_registration(ctx: Ctx, rule: str) -> None:
+    """parse_workers: every worker it returns has been given the slot of its own suffix (its connection parameters) and has joined the
+    swarm of its id (workers outside every swarm are never traversed with the others, never counted among the involved workers).  The
+    creation `TestWorker(flat_net)` and the two registrations therefore belong to the same (innermost) loop iteration."""
+    fref = "cartgraph/graph.py:TestGraph.parse_workers"
+    fn = ctx.repo.func(fref)
+    ctx.touch(fref)
+
+    def innermost_loop(node):
+        best = None
+        for l in ast.walk(fn.node):
+            if isinstance(l, (ast.For, ast.While)) and any(x is node for b in l.body for x in ast.walk(b)):
+                if best is None or any(x is l for x in ast.walk(best)):
+                    best = l
+        return best
+
+    created = [c for c in calls_in(fn.node) if call_name(c) == "TestWorker"]
+    slots = [c for c in calls_in(fn.node) if call_name(c) == "overwrite_with_slot"]
+    swarm = [s_ for s_ in ast.walk(fn.node) if isinstance(s_, (ast.Assign, ast.AugAssign)) and "TestSwarm.run_swarms[" in ast.unparse(s_.targets[0] if isinstance(s_, ast.Assign) else s_.target)]
+    if len(created) != 1 or not slots or not swarm:
+        raise AnalysisError(f"{fref}: worker creation / slot / swarm registration not found ({len(created)}, {len(slots)}, {len(swarm)})")
+    home = innermost_loop(created[0])
+    outside = [("the slot is applied", x) for x in slots if innermost_loop(x) is not home] + [("the swarm is joined", x) for x in swarm if innermost_loop(x) is not home]
+    # also accepted: a later separate loop over the list of created workers
+    acc = [ast.unparse(a.target) for a in ast.walk(fn.node) if isinstance(a, ast.AugAssign) and "test_worker" in ast.unparse(a.value)]
+    outside = [(w, x) for w, x in outside if not (innermost_loop(x) is not None and isinstance(innermost_loop(x), ast.For) and ast.unparse(innermost_loop(x).iter) in acc)]
+    ok = home is not None and not outside
+    ctx.record(rule, "PAIR", fref, "every created worker gets the slot of its suffix and joins its swarm in the iteration that creates it", ok,
+               {"registrations": len(slots) + len(swarm)},
+               "" if ok else f"{outside[0][0] if outside else 'workers are registered'} outside the loop that creates the workers of a suffix: when a net id names several net variants "
+               "(net6 = localhost net6, cluster1.net6, cluster2.net6) only the last worker gets the slot and joins a swarm; the others run with default connection parameters in no swarm")
+
+
 def foreign_worker_rows(ctx: Ctx, rule: str) -> None:
     N.run_decision_table(ctx, rule + "r")
     N.clean_decision_table(ctx, rule + "c")
@@ -209,6 +242,7 @@ def run(ctx: Ctx) -> None:
     ctx.call(run_task_rule, "7")
     ctx.call(session_identity, "8")
     ctx.call(worker_params_alias, "8p")
+    ctx.call(worker_registration, "8s")
     from . import graphrules as GR8
 
     # pull_locations names producers per object from the parent-side edge sets and from results seen through DIRECT bridges:
@@ -227,6 +261,7 @@ def run(ctx: Ctx) -> None:
 G = "cartgraph/graph.py"
 R = "plugins/runner.py"
 MUTANTS = [
+    ('slot-and-swarm-after-the-worker-loop', 'cartgraph/graph.py', '                if slot is not None:\n                    test_worker.overwrite_with_slot(slot)\n\n                if test_worker.swarm_id not in TestSwarm.run_swarms:\n                    TestSwarm.run_swarms[test_worker.swarm_id] = TestSwarm(\n                        test_worker.swarm_id, [test_worker]\n                    )\n                else:\n                    TestSwarm.run_swarms[test_worker.swarm_id].workers += [test_worker]\n', '            if slot is not None:\n                test_worker.overwrite_with_slot(slot)\n\n            if test_worker.swarm_id not in TestSwarm.run_swarms:\n                TestSwarm.run_swarms[test_worker.swarm_id] = TestSwarm(\n                    test_worker.swarm_id, [test_worker]\n                )\n            else:\n                TestSwarm.run_swarms[test_worker.swarm_id].workers += [test_worker]\n', '8s'),
     ("worker-params-copied", "cartgraph/worker.py", "        return self.net.params\n", "        return self.net.params.copy()\n", "8p"),
     ("all-worker-params-copied", NODE, "                            if not key.startswith(\"nets_\"):\n                                continue\n", "", "6"),
     ("params-from-any-worker", NODE, "                    if worker.id == wid:\n                        source_suffix", "                    if worker.id != \"\":\n                        source_suffix", "6"),
